@@ -441,7 +441,7 @@ func expectedReadDiags(info *spec.EMsg, obj *TV, full dset, short dset) {
 					short[[2]string{"ReadConv", lastSeg(f.Path)}] = true
 					continue
 				}
-				if (f.Shape == "objlist" || f.Shape == "objmap") && !isNU(e) && f.Msg != nil {
+				if (f.Shape == "objlist" || f.Shape == "objmap") && !isNU(e) && f.Msg != nil && !f.Msg.Empty {
 					expectedReadDiags(f.Msg, e, full, short)
 				}
 			}
